@@ -26,16 +26,11 @@ def dedupe (xs : List Val) : List Val :=
 
 /-! ### modified_count -/
 
-/-- the code's change test `existing_document != snapshot` (collection.py `_apply_update`), taken
-    between the document stored under the entry's key AFTER the call (`c'`) and the entry as it was
-    selected: Python `!=` on dicts — blind to key order and to the numeric type (`1 == 1.0`) —
-    except on the documents an upsert built (`c.isOD`: OrderedDicts, compared order-sensitively) -/
-def changedAfter (c c' : Coll) (p : Val × Val) : Bool :=
-  match c'.lookup p.1 with
-  | some new => !(if c.isOD p.1 then pyEqOrdered new p.2 else pyEq new p.2)
-  | none => false
-
-/-- the content of the entry's document changed: it is no longer `==` (as a dict) to what it was -/
+/-- the content of the entry's document changed: the document stored under the entry's key AFTER
+    the call (`c'`) is no longer `==`, as a dict, to what it was.  This is also the code's change
+    test `_copy_field(existing_document, dict) != snapshot` (collection.py `_apply_update`): Python
+    `!=` between plain dicts — blind to key order and to the numeric type (`1 == 1.0`), whatever
+    built the stored document -/
 def contentChangedAfter (c' : Coll) (p : Val × Val) : Bool :=
   match c'.lookup p.1 with
   | some new => !pyEq new p.2
